@@ -799,6 +799,68 @@ pub fn fastq_long_id_defective() -> BoxedStrategy<B> {
         .boxed()
 }
 
+/// A well-formed document of EXACTLY `total` bytes (records of ~200 bytes, the last one sized to fit), with or without
+/// a final line terminator: total lengths at and around 2^12 / 2^16 / 2^17, where a whole input that sits in one buffer
+/// has an end offset that no longer fits a narrower integer.
+pub fn exact_len_doc(format: Format) -> BoxedStrategy<B> {
+    let total = prop_oneof![4 => 65_534usize..65_539, 2 => 131_070usize..131_075, 1 => 4094usize..4099, 1 => 262_142usize..262_147];
+    (total, any::<bool>(), 20usize..200)
+        .prop_map(move |(total, final_term, seq_len)| {
+            let mut v: Vec<u8> = Vec::with_capacity(total + 8);
+            let mut i = 0usize;
+            let rec = |v: &mut Vec<u8>, head: &str, l: usize, term: bool| {
+                match format {
+                    Format::Fasta => {
+                        v.push(b'>');
+                        v.extend_from_slice(head.as_bytes());
+                        v.push(b'\n');
+                        v.extend((0..l).map(|k| b"ACGT"[k & 3]));
+                    }
+                    Format::Fastq => {
+                        v.push(b'@');
+                        v.extend_from_slice(head.as_bytes());
+                        v.push(b'\n');
+                        v.extend((0..l).map(|k| b"ACGT"[k & 3]));
+                        v.extend_from_slice(b"\n+\n");
+                        v.extend(std::iter::repeat(b'I').take(l));
+                    }
+                }
+                if term {
+                    v.push(b'\n');
+                }
+            };
+            // ordinary records while at least 1000 bytes remain
+            while v.len() + 1000 < total {
+                rec(&mut v, &format!("r{}", i), seq_len, true);
+                i += 1;
+            }
+            // the last record fills the rest exactly
+            let rest = total - v.len();
+            let ft = final_term as usize;
+            match format {
+                Format::Fasta => {
+                    // '>' head '\n' seq [\n]
+                    let head = "last";
+                    let l = rest.saturating_sub(1 + head.len() + 1 + ft);
+                    rec(&mut v, head, l, final_term);
+                }
+                Format::Fastq => {
+                    // '@' head '\n' seq "\n+\n" qual [\n]  = 1 + h + 1 + l + 3 + l + ft
+                    let fixed = 5 + ft;
+                    let mut head = "last".to_string();
+                    if (rest - fixed - head.len()) % 2 == 1 {
+                        head.push('x');
+                    }
+                    let l = (rest - fixed - head.len()) / 2;
+                    rec(&mut v, &head, l, final_term);
+                }
+            }
+            debug_assert_eq!(v.len(), total);
+            B(v)
+        })
+        .boxed()
+}
+
 pub fn big_cap() -> BoxedStrategy<usize> {
     prop_oneof![2 => 3usize..300, 3 => 300usize..5000, 2 => 5000usize..70000, 2 => Just(65536usize), 1 => Just(1usize << 17)].boxed()
 }
